@@ -11,6 +11,7 @@ import (
 	"github.com/Trendyol/go-dcp/config"
 	"github.com/Trendyol/go-dcp/couchbase"
 	"github.com/Trendyol/go-dcp/models"
+	"github.com/Trendyol/go-dcp/tracing"
 	"github.com/couchbase/gocbcore/v10"
 	"github.com/couchbase/gocbcore/v10/memd"
 
@@ -51,7 +52,7 @@ func classify(err error) string {
 
 // a real observer with listeners that do nothing
 func nopObserver(cfg *config.Dcp, vb uint16) couchbase.Observer {
-	return couchbase.NewObserver(cfg, vb, 0, func(models.ListenerArgs) {}, func(models.DcpStreamEndContext) {}, map[uint32]string{}, nil)
+	return couchbase.NewObserver(cfg, vb, 0, func(models.ListenerArgs) {}, func(models.DcpStreamEndContext) {}, map[uint32]string{}, tracing.NewTracerComponent())
 }
 
 func (w *WireRun) Run() []TraceLine {
